@@ -45,20 +45,29 @@ def run(F, R, tier):
         r1.require(ok, (base, "unvalidated-construction"), "CoreDID is constructed in %s on a path that has not passed check_validity: a plain DID could carry a path, query or fragment" % L.short(base))
     r1.require(len(cons) >= 1, (DID, "constructions"), "no construction site of CoreDID found")
     # parse routes through the gate
-    h = F.hir(DID + "::parse")
-    if r1.anchor(h, DID + "::parse"):
-        env = H.Env(h)
-        for n, oc in H.exits(h):
-            oo = H.origins(n, env)
-            r1.site("CoreDID::parse returns %s" % sorted(map(str, oo)), n.get("sp"))
-            r1.require(bool(oo) and all(o[0] == "call" and re.search(r"TryFrom.*try_from$", o[1]) for o in oo), ("CoreDID::parse", "via-gate"), "CoreDID::parse does not return through the validating TryFrom<BaseDIDUrl>: %s" % sorted(map(str, oo)))
+    VERB = re.compile(r"(as_ref|as_str|borrow|deref|to_string|to_owned|into|from|clone|as_bytes)$")
+    fn = DID + "::parse"
+    if r1.anchor(F.hir(fn), fn):
+        tab = SR.Table(F, fn, opaque=r"did_url_parser::did::DID::parse$|TryFrom<.*>>::try_from$|TryFrom::try_from$", rule=r1)
+        okp = bool(tab.ok())
+        for q in tab.ok():
+            ps_ = q.calls(r"did_url_parser::did::DID::parse$")
+            tf = [e for e in q.calls(r"try_from$") if ps_ and SR.pure(e.args[0], ("payload", ps_[0].result.t, "Ok", 0))]
+            if not r1.require(len(ps_) == 1 and len(tf) == 1 and SR.pure(q.ret, tf[0].result.t), ("CoreDID::parse", "via-gate"), "CoreDID::parse does not return through the validating TryFrom<BaseDIDUrl> of the parsed input"):
+                okp = False
+                continue
+            if not r1.require(SR.pure(ps_[0].args[0], SR.param("input"), conv=VERB), ("CoreDID::parse", "verbatim"), "CoreDID::parse does not hand its input to the parser verbatim: %s" % sym.fmt(sym.term(ps_[0].args[0]))):
+                okp = False
+        r1.site("CoreDID::parse = CoreDID::try_from(BaseDIDUrl::parse(input)?) with the input verbatim: %s" % okp)
     for fn in F.find(r"^<identity_did::did::CoreDID as core::(convert::TryFrom<(&str|alloc::string::String)>|str::traits::FromStr)>::(try_from|from_str)$"):
-        hh = F.hir(fn)
-        env = H.Env(hh)
-        for n, oc in H.exits(hh):
-            oo = H.origins(n, env)
-            r1.site("%s → %s" % (L.short(fn), sorted(map(str, oo))))
-            r1.require(oo == {("call", DID + "::parse")}, (fn, "delegates-parse"), "%s does not delegate to CoreDID::parse" % L.short(fn))
+        tab = SR.Table(F, fn, opaque=r"CoreDID::parse$", rule=r1)
+        okd = bool(tab.ok())
+        for q in tab.ok():
+            ps_ = q.calls(r"CoreDID::parse$")
+            pname = (F.hir(fn)["params"][0].get("name") if F.hir(fn)["params"] else None) or "_0"
+            if not r1.require(len(ps_) == 1 and SR.pure(q.ret, ps_[0].result.t) and SR.pure(ps_[0].args[0], SR.param(pname), conv=VERB), (fn, "delegates-parse"), "%s does not delegate to CoreDID::parse with its input verbatim" % L.short(fn)):
+                okd = False
+        r1.site("%s → CoreDID::parse(input): %s" % (L.short(fn), okd))
     a = F.ast_item(DID)
     if r1.anchor(a, DID + " (ast)"):
         attrs = " ".join(a["attrs"])
@@ -247,6 +256,12 @@ def run(F, R, tier):
             fb = q.calls(r"DIDUrl::from_base_did_url$")
             if not r3.require(len(fb) == 1 and SR.pure(q.ret, fb[0].result.t), (fn, "via-gate"), "DIDUrl::parse does not return through from_base_did_url"):
                 okp = False
+            # the string handed to the parser is the input itself (no trimming, case folding or other normalisation): what is
+            # accepted is what is printed back
+            ps_ = q.calls(r"did_url_parser::did::DID::parse$")
+            VERB = re.compile(r"(as_ref|as_str|borrow|deref|to_string|to_owned|into|from|clone|as_bytes)$")
+            if not r3.require(len(ps_) == 1 and SR.pure(ps_[0].args[0], SR.param("input"), conv=VERB), (fn, "verbatim"), "DIDUrl::parse does not hand its input to the parser verbatim: %s" % ([sym.fmt(sym.term(e.args[0])) for e in ps_],)):
+                okp = False
         r3.site("DIDUrl::parse returns from_base_did_url(..) on every accepting path: %s" % okp)
     r3.site("DIDUrl fields private; constructed only in new/from_base_did_url/map/try_map (or private helpers of these)")
     r3.floor(4)
@@ -353,6 +368,9 @@ def run(F, R, tier):
         idset = idset[0] if isinstance(idset, tuple) else idset
         r6.require(idset is not None and ord("%") not in idset and all(ord(c) in idset for c in "0123456789abcdefABCDEF"), (fn, "classes"),
                    "is_char_method_id must contain the hex digits and not '%' for the class model of the escape check")
+        fns_ = {f.rsplit("::", 1)[-1] for f in L.called_fns_deep(F, fn)}
+        r6.require("from_str_radix" not in fns_, (fn, "escape-check"),
+                   "valid_method_id validates a percent escape with an integer parser (from_str_radix): that accepts a sign (\"%+4\", \"%+A\") or a truncated escape, which are not `%` HEXDIG HEXDIG")
         LMAX = 4
         ev = sym.Evaluator(F, opaque=r"is_char_method_id$|is_ascii_hexdigit$", inline_depth=4, loop_bound=LMAX + 2, char_streams=True)
         ev.max_stream_len = LMAX
